@@ -156,6 +156,28 @@ def run(ctx):
            "x INFO [12]", "x INFO ['12']", "x INFO intouch version EN 1 v2.3 intouch version EN 4 v5.6", "x INFO intouch version EN 12 v3", "x INFO intouch version CO  9 v1.1",
            "x INFO Spa pack in XM 12 v3.4", "x INFO Spa pack a 1 v2.3 b 4 v5.6", "x INFO Spa pack  7 v1.0", "x INFO Spa pack inXM 186 v3", "x INFO Config version", "x INFO Config version 007",
            "x INFO Log version 12abc", "x INFO Snapshot (a) (b)", "x INFO Snapshot (", "x INFO Snapshot ()", "x INFO Snapshot (n) ['0x7']"]
+    # ---- several snapshots in one log file: each comes back with its own block, versions and name, in order
+    for k in range(6 if ctx.thorough else 3):
+        parts, lines = [], []
+        for j in range(rng.choice([2, 3])):
+            blk = bytes(rng.randrange(256) for _ in range(1024))
+            en = (rng.randrange(0, 65536), rng.randrange(0, 256), rng.randrange(0, 256))
+            co = (rng.randrange(0, 65536), rng.randrange(0, 256), rng.randrange(0, 256))
+            ver = (rng.randrange(0, 65536), rng.randrange(0, 256), rng.randrange(0, 256))
+            cfg, log = rng.randrange(0, 256), rng.randrange(0, 256)
+            pack, name = rng.choice(packs), "%s #%d" % (rng.choice(names), j)
+            parts.append((blk, pack, en, co, cfg, log, name))
+            lines += write_snapshot(name, blk, pack, ver, en, co, cfg, log)
+            # the parser ends a snapshot at the first line that is not an INFO line (what the shell's log has between two snapshots:
+            # its own DEBUG traffic); two snapshots with nothing in between are outside the property and are not tested
+            lines.append("2020-12-12 09:36:49,000 geckolib.driver.udp_socket DEBUG Received b'' from ('10.0.0.1', 10022)")
+        snaps = parse_lines(lines)
+        ctx.count("multi_snapshot_files")
+        ctx.case(("multi", k, len(parts)))
+        got = [(s_.bytes, s_.packtype, s_.intouch_EN, s_.intouch_CO, s_.config_version, s_.log_version, s_.name) for s_ in snaps]
+        if got != parts:
+            ctx.fail("snapshot:multi", "a log file with %d snapshots parses to %d snapshots / different contents" % (len(parts), len(snaps)),
+                     {"written": [(p_[1], p_[2], p_[3], p_[4], p_[5], p_[6]) for p_ in parts], "parsed": [(g[1], g[2], g[3], g[4], g[5], g[6]) for g in got]})
     for l in adv:
         add_line_cases(ctx, exprs, meta, l)
         ctx.count("adversarial_lines")
@@ -223,6 +245,23 @@ def run(ctx):
             if sim.structure.status_block != snaps[0]["bytes"] or not sim.structure.accessors:
                 ctx.fail("shipped:%s:load" % fn, "simulator did not load shipped snapshot %s" % fn, {"file": fn})
                 continue
+            # what the simulator tells a client about the loaded snapshot: firmware versions and the config / log file names
+            try:
+                from geckolib.driver.protocol import GeckoVersionProtocolHandler, GeckoConfigFileProtocolHandler
+                frame = lambda c: b"<PACKT><SRCCN>IOSx</SRCCN><DESCN>SPAx</DESCN><DATAS>" + c + b"</DATAS></PACKT>"
+                unframe = lambda dgs: [x[x.index(b"<DATAS>") + 7:x.rindex(b"</DATAS>")] for x in dgs]
+                vr = unframe(vloop.sim_replies(sim, frame(b"AVERS\x01"), ("10.0.0.9", 40001)))
+                fr = unframe(vloop.sim_replies(sim, frame(b"SFILE\x02"), ("10.0.0.9", 40001)))
+                vh, fh = GeckoVersionProtocolHandler(), GeckoConfigFileProtocolHandler()
+                vh.handle(vr[0], ("x", 1, b"a", b"b"))
+                fh.handle(fr[0], ("x", 1, b"a", b"b"))
+                told = ((vh.en_build, vh.en_major, vh.en_minor), (vh.co_build, vh.co_major, vh.co_minor), fh.plateform_key.lower(), fh.config_version, fh.log_version)
+            except Exception as e:  # noqa
+                told = ("raises", repr(e)[:80])
+            ctx.count("shipped_served_headers")
+            want = (tuple(snaps[0]["en"]), tuple(snaps[0]["co"]), snaps[0]["packtype"].lower(), snaps[0]["cfg"], snaps[0]["log"])
+            if told != want:
+                ctx.fail("shipped:%s:headers" % fn, "the simulator tells a client %r about shipped snapshot %s, which says %r" % (told, fn, want), {"file": fn, "served": str(told), "snapshot": str(want)})
             if ctx.thorough or files.index(fn) % 6 == 0:
                 chain = real_chain(sim, 0, 1024)
                 status, sends, blk = run_async(bytes(1024), 0, 1024, chain, [("C", i) for i in range(len(chain))])
